@@ -243,6 +243,9 @@ func (r *Rule) doEvaluate(logger debuglog.Logger, phase types.RulePhase, tx *Tra
 				continue
 			}
 			var values []types.MatchData
+			if len(ecol) > 0 {
+				v.Exceptions = append([]ruleVariableException(nil), v.Exceptions...)
+			}
 			for _, c := range ecol {
 				if c.Variable == v.Variable {
 					// TODO shall we check the pointer?
